@@ -182,20 +182,22 @@ fn tpl_match(parts: &[TplPart], s: &str, plain_numbers_only: bool) -> Tri {
 /// Models of known defects of the implementation ("quirks").  The reference with exactly one quirk switched
 /// on reproduces the implementation's *defective* answer; a mismatch is attributed to a known finding only
 /// if such a model explains it (see c01::explain).  The unquirked reference is the only oracle.
-pub const ALL_QUIRKS: &[&str] = &["inter_non_object", "tpl_number_grammar"];
+pub const ALL_QUIRKS: &[&str] = &["strict_inter_per_member", "tpl_number_grammar", "inter_non_object"];
 
 pub struct Ref<'a> {
     pub env: &'a Env,
     pub mode: Mode,
     pub quirk: Option<&'static str>,
+    /// completion of the unspecified zone (only used when attributing a mismatch to a known defect model)
+    pub unspec_as: Option<bool>,
 }
 
 impl<'a> Ref<'a> {
     pub fn new(env: &'a Env, mode: Mode) -> Self {
-        Ref { env, mode, quirk: None }
+        Ref { env, mode, quirk: None, unspec_as: None }
     }
     pub fn with_quirk(env: &'a Env, mode: Mode, q: &'static str) -> Self {
-        Ref { env, mode, quirk: Some(q) }
+        Ref { env, mode, quirk: Some(q), unspec_as: None }
     }
     #[allow(dead_code)]
     fn q(&self, name: &str) -> bool {
@@ -207,6 +209,14 @@ impl<'a> Ref<'a> {
     }
 
     fn member_fuel(&self, d: &D, v: &JsVal, fuel: usize) -> Tri {
+        let r = self.member_inner(d, v, fuel);
+        match (r, self.unspec_as) {
+            (Unspec, Some(b)) => Tri::from_bool(b),
+            _ => r,
+        }
+    }
+
+    fn member_inner(&self, d: &D, v: &JsVal, fuel: usize) -> Tri {
         if fuel == 0 {
             return Unspec;
         }
@@ -345,6 +355,21 @@ impl<'a> Ref<'a> {
                         return No;
                     }
                 }
+                if self.mode == Mode::Strict && self.q("strict_inter_per_member") {
+                    // defect model: every member of an intersection that is not merged at compile time (a named
+                    // reference, or literal members with conflicting keys) judges 'extra' keys on its own
+                    let unmerged = ms.len() >= 2;
+                    if unmerged {
+                        let mut acc = Yes;
+                        for m in ms {
+                            acc = acc.and(self.member_fuel(m, v, fuel - 1));
+                            if acc == No {
+                                break;
+                            }
+                        }
+                        return acc;
+                    }
+                }
                 if self.mode == Mode::Strict {
                     // declared keys of an intersection = union of the members' declared keys: judge the
                     // merged object when every member is an object type
@@ -389,7 +414,9 @@ impl<'a> Ref<'a> {
                 D::Object { props: ps, index: ix } => {
                     for p in ps {
                         if let Some(e) = props.iter_mut().find(|e| e.key == p.key) {
-                            e.ty = D::Inter(vec![e.ty.clone(), p.ty.clone()]);
+                            if e.ty != p.ty {
+                                e.ty = D::Inter(vec![e.ty.clone(), p.ty.clone()]);
+                            }
                             e.optional = e.optional && p.optional;
                         } else {
                             props.push(p.clone());
@@ -407,7 +434,9 @@ impl<'a> Ref<'a> {
                     if let D::Object { props: ps, index: ix } = merged {
                         for p in ps {
                             if let Some(e) = props.iter_mut().find(|e| e.key == p.key) {
-                                e.ty = D::Inter(vec![e.ty.clone(), p.ty.clone()]);
+                                if e.ty != p.ty {
+                                    e.ty = D::Inter(vec![e.ty.clone(), p.ty.clone()]);
+                                }
                                 e.optional = e.optional && p.optional;
                             } else {
                                 props.push(p);
@@ -457,6 +486,14 @@ impl<'a> Ref<'a> {
             // non-plain objects: the statement does not pin how builtin instances relate to object types,
             // except that a required property that is certainly missing rules the value out
             JsVal::Arr(_) | JsVal::CyclicArr | JsVal::Func | JsVal::Date(_) | JsVal::Map(_) | JsVal::Set(_) | JsVal::TypedArr(_, _) => {
+                // ... a builtin instance has no property named like our plain vocabulary keys
+                for p in props {
+                    let builtin_member = matches!(p.key.as_str(), "0" | "1" | "2" | "length" | "size" | "name" | "byteLength")
+                        || crate::jsval::HOSTILE.contains(&p.key.as_str());
+                    if !p.optional && !builtin_member && self.member_fuel(&p.ty, &JsVal::Undef, fuel - 1) == No {
+                        return No;
+                    }
+                }
                 return Unspec;
             }
             _ => return No,
